@@ -238,8 +238,19 @@ def rule_case(ctx: Ctx, stream: str, i: int) -> None:
     rank = rng.choice([0, 1, 1, 2, 2, 3])
     ish = tuple(rng.choice([1, 2, 3, 4]) for _ in range(rank))
     size = int(np.prod(ish))
-    mode = rng.choice(['random', 'distinct', 'negative', 'repeat'])
-    if mode == 'distinct':
+    mode = rng.choice(['random', 'distinct', 'negative', 'repeat', 'range-lookalike'])
+    if mode == 'range-lookalike' and d >= 3 and rank == 1:
+        # the values of a..b with the right end points but not in order (or with a repeat): NOT a slice
+        a0 = rng.randint(0, d - 3)
+        b0 = rng.randint(a0 + 2, d - 1)
+        mid = list(range(a0 + 1, b0))
+        rng.shuffle(mid)
+        if rng.random() < 0.5 and mid:
+            mid[rng.randrange(len(mid))] = rng.choice([a0, b0] + mid)
+        vals = [a0] + mid + [b0]
+        ish = (len(vals),)
+        size = len(vals)
+    elif mode == 'distinct':
         base = list(range(d))
         rng.shuffle(base)
         vals = [base[k % d] for k in range(size)]
